@@ -21,6 +21,10 @@ CHECKS = [
      "text": "Bounded symbolic model checking of the real MagicNumberRule.check with the parsers in the loop: programs with 1-2 numeric literals (int/float/hex/binary/underscore/suffixed/BigInt spellings) placed in every documented flagged and exempt context of each language, booleans/strings/identifiers with digits alongside, allowed_numbers membership forked and max_small_integer an unbounded solver integer; the iff-verdict, exactly-once, line and named value are decided on every path.",
      "note": "Trusted: z3, proxy ints, the spelling table's reference values and the context table's exempt classification (written from the documentation). Four defects repaired by fix: commits (bool literals, Rust hex f32, TS hex-with-e, BigInt).",
      "technique": TECH},
+    {"property_id": "C05", "design_ref": "DESIGN.md §4 C05",
+     "text": "Bounded symbolic model checking of configuration handling: for every documented linter section (18) in both key spellings the real key normalisation + Orchestrator + rule run on its trigger file with `enabled` a solver boolean (false => silent, true => default findings); thresholds a <= b as solver integers for monotonicity and rejection of non-positive values; command-line threshold overrides against file values and per-language sections with all values unbounded solver integers; carriers (.thailint.yaml/.json/pyproject) and their discovery order, top-level ignore list and malformed carriers explored by forking through library and CLI.",
+     "note": "Trusted: z3, proxy ints/bools, the documented section names and trigger catalogue. The YAML/JSON/TOML parsers are outside the solver's reach: carriers are explored concretely (forked), not symbolically. `--config FILE` carriers are covered for error handling only (C06). Nine defects repaired by fix: commits.",
+     "technique": TECH},
 ]
 
 DONE = {int(c['property_id'][1:]) for c in CHECKS} | {19}
